@@ -13,7 +13,10 @@ import (
 type C19Case struct {
 	W     *WideQ `json:"w"`
 	Plant int    `json:"plant"` // index of the fault marker that carries the fault
-	Kind  string `json:"kind"`  // fn (vf_fail returns an error at invocation k, every k) | type (type error planted at the position) | raise
+	Kind  string `json:"kind"`  // fn (vf_fail returns an error at invocation k, every k) | type (type error planted at the position) | raise | selector
+	// selector kind: a selector the engine rejects (malformed range, index outside the array, index on a
+	// scalar, unknown pipe type) planted at the position; {ITEMS} / {K} stand for the array / scalar column
+	BadSel string `json:"bad_selector,omitempty"`
 	// raise kind
 	RaiseSQL  string `json:"raise_sql,omitempty"`  // query containing RAISE / RAISE_WHEN
 	RaiseProb string `json:"raise_prob,omitempty"` // probe query: non-empty result <=> the raise fires
@@ -22,8 +25,11 @@ type C19Case struct {
 const c19MaxK = 64
 
 func genC19(t *rapid.T) any {
-	kind := rapid.SampledFrom([]string{"fn", "fn", "fn", "fn", "type", "raise"}).Draw(t, "kind")
+	kind := rapid.SampledFrom([]string{"fn", "fn", "fn", "fn", "type", "raise", "selector"}).Draw(t, "kind")
 	c := &C19Case{Kind: kind}
+	if kind == "selector" {
+		c.BadSel = rapid.SampledFrom([]string{"nokey[(0:1:2)]", "nokey[(1:x)]", "nokey::[(1:x)]", "{ITEMS}[99]", "{K}[0]", "{ITEMS}[(0:99)]", "{ITEMS}.{p|date}", "{ITEMS}[each:0]"}).Draw(t, "badselector")
+	}
 	if kind == "raise" {
 		doc, sc := genC07Doc(t)
 		c.W = &WideQ{Doc: doc, Construct: "raise"}
@@ -121,6 +127,60 @@ func checkC19(c *C19Case) Result {
 	res.Execs += 2
 	if n == 0 {
 		res.Labels = append(res.Labels, "N=0")
+		return res
+	}
+	if c.Kind == "selector" {
+		// a selector that fails when evaluated on its own must fail at every position where it is
+		// evaluated - the first time and every time after (the parse cache must not turn the second
+		// use into a success)
+		sel := c.BadSel
+		if rows, _ := w.Doc["t"].([]any); len(rows) > 0 {
+			if row, ok := rows[0].(map[string]any); ok {
+				for k, v := range row {
+					switch v.(type) {
+					case []any:
+						sel = strings.ReplaceAll(sel, "{ITEMS}", k)
+					case float64:
+						if strings.Contains(sel, "{K}") {
+							sel = strings.ReplaceAll(sel, "{K}", k)
+						}
+					}
+				}
+			}
+		}
+		if strings.Contains(sel, "{") && !strings.Contains(sel, ".{p|") {
+			res.Discard = "no row to take column names from"
+			return res
+		}
+		probe := Run(val.CopyMap(w.Doc), "SELECT `"+sel+"` AS z FROM "+map[bool]string{false: "t", true: "root.t"}[w.Wrapped], w.opts())
+		res.Execs++
+		if probe.OK() {
+			res.Discard = "the engine accepts this selector on this document"
+			return res
+		}
+		res.NonTrivial = true
+		sql := w.SQL(c.Plant, "`"+sel+"`%.0s")
+		for i := 0; i < 3; i++ {
+			doc := val.CopyMap(w.Doc)
+			injReset(0, 0)
+			out := Run(doc, sql, w.opts())
+			res.Execs++
+			if out.Panic != "" {
+				res.Violation = fmt.Sprintf("%s\n  panic escaped: %s", sql, out.Panic)
+				return res
+			}
+			if out.OK() {
+				res.Violation = fmt.Sprintf("a failing selector at position %s is swallowed on execution %d\n  %s\n  returned %s\n  (the selector alone is rejected: %s; the position is evaluated %d times in %s)", pos, i+1, sql, val.JSON(out.Rows), probe.Describe(), n, sqlF)
+				return res
+			}
+			if out.ErrRows > 0 {
+				res.Violation = fmt.Sprintf("%s\n  returned an error together with %d rows", sql, out.ErrRows)
+				return res
+			}
+			if r := c19AfterFailure(c, w, doc, pristineFollow, sql, &res); r.Violation != "" {
+				return r
+			}
+		}
 		return res
 	}
 	if c.Kind == "type" {
